@@ -431,19 +431,28 @@ theorem dispatch_tasks (w : World) (ns : List String) (h : isCompleted w.wf = tr
   · rename_i hc; rw [h hc]; simp
   · rfl
 
-/-- the shape of every change of the task rows: the execution found under one name is updated (its
-    name stays, SUCCESS stays SUCCESS) and rows are appended for names that are pairwise different,
-    needed, and satisfied on the updated rows -/
+/-- the shape of every change of the task rows: the existing rows keep their names (in order) and
+    lose no succeeded task, and rows are appended for names that are pairwise different, needed, and
+    satisfied on the rows as they are after the change -/
 def Shape (sp : Spec) (old new : List TaskRow) : Prop :=
-  ∃ (t : String) (f : TaskRow → TaskRow) (ns : List String),
-    new = updRow old t f ++ ns.map newRow ∧
-    (∀ x, (f x).name = x.name) ∧
-    (∀ r, old.find? (·.name == t) = some r → r.state = .SUCCESS → (f r).state = .SUCCESS) ∧
+  ∃ (mid : List TaskRow) (ns : List String),
+    new = mid ++ ns.map newRow ∧
+    mid.map (·.name) = old.map (·.name) ∧
+    (∀ q, hasSuccess old q = true → hasSuccess mid q = true) ∧
     ns.Nodup ∧
-    ∀ n ∈ ns, (∃ nd, needed sp = some nd ∧ n ∈ nd) ∧ satisfiedName sp (updRow old t f) n = true
+    ∀ n ∈ ns, (∃ nd, needed sp = some nd ∧ n ∈ nd) ∧ satisfiedName sp mid n = true
 
 theorem shape_same (sp : Spec) (old new : List TaskRow) (h : new = old) : Shape sp old new :=
-  ⟨"", fun x => x, [], by simp [updRow_id, h], fun _ => rfl, fun _ _ h => h, by simp, by simp⟩
+  ⟨old, [], by simp [h], rfl, fun _ h => h, by simp, by simp⟩
+
+/-- an update of the found row (name kept, SUCCESS kept) followed by new rows -/
+theorem shape_upd (sp : Spec) (old : List TaskRow) (t : String) (f : TaskRow → TaskRow) (ns : List String)
+    (hn : ∀ x, (f x).name = x.name)
+    (hs : ∀ r, old.find? (·.name == t) = some r → r.state = .SUCCESS → (f r).state = .SUCCESS)
+    (hnd : ns.Nodup)
+    (hsat : ∀ n ∈ ns, (∃ nd, needed sp = some nd ∧ n ∈ nd) ∧ satisfiedName sp (updRow old t f) n = true) :
+    Shape sp old (updRow old t f ++ ns.map newRow) :=
+  ⟨updRow old t f, ns, rfl, updRow_names old t f hn, fun q hq => hasSuccess_updRow old t f hn hs q hq, hnd, hsat⟩
 
 theorem not_completed_not_success (s : St) (h : isCompleted s = false) : s ≠ .SUCCESS := by
   intro hs; subst hs; revert h; decide
@@ -451,6 +460,11 @@ theorem not_completed_not_success (s : St) (h : isCompleted s = false) : s ≠ .
 def completeUpd (s : St) (ns : List String) (r : TaskRow) : TaskRow :=
   { r with state := s, nextTasks := ns, hasNext := !ns.isEmpty,
            errorHandled := if s == St.ERROR then false else r.errorHandled, processed := true }
+
+/-- the same while the workflow is paused: the task stays unprocessed -/
+def pausedUpd (s : St) (ns : List String) (r : TaskRow) : TaskRow :=
+  { r with state := s, nextTasks := ns, hasNext := !ns.isEmpty,
+           errorHandled := if s == St.ERROR then false else r.errorHandled }
 
 theorem completeTask_shape (sp : Spec) (w : World) (t : String) (s : St) (r : TaskRow)
     (hf : w.tasks.find? (·.name == t) = some r) (hc : isCompleted r.state = false) :
@@ -463,18 +477,48 @@ theorem completeTask_shape (sp : Spec) (w : World) (t : String) (s : St) (r : Ta
     exact not_completed_not_success _ hc h2
   unfold completeTask
   split
-  · exact ⟨t, (fun r : TaskRow => ({ r with state := St.ERROR } : TaskRow)), [], by simp, fun _ => rfl,
-      fun r' h1 h2 => (hns r' h1 h2).elim, by simp, by simp⟩
+  · have := shape_upd sp w.tasks t (fun r : TaskRow => ({ r with state := St.ERROR } : TaskRow)) []
+      (fun _ => rfl) (fun r' h1 h2 => (hns r' h1 h2).elim) (by simp) (by simp)
+    simpa using this
   · rename_i ns hnn
-    refine ⟨t, completeUpd s ns, ns, ?_, fun _ => rfl, fun r' h1 h2 => (hns r' h1 h2).elim, (nextNames_spec _ _ _ _ _ hnn).1, ?_⟩
-    · exact dispatch_tasks { w with tasks := updRow w.tasks t (completeUpd s ns), pending := w.pending ++ [.postCheck] }
+    split
+    · have := shape_upd sp w.tasks t (pausedUpd s ns) [] (fun _ => rfl)
+        (fun r' h1 h2 => (hns r' h1 h2).elim) (by simp) (by simp)
+      rw [List.map_nil, List.append_nil] at this
+      exact this
+    · have hsh := shape_upd sp w.tasks t (completeUpd s ns) ns (fun _ => rfl)
+        (fun r' h1 h2 => (hns r' h1 h2).elim) (nextNames_spec _ _ _ _ _ hnn).1 (by
+          intro n hn
+          refine ⟨((nextNames_spec _ _ _ _ _ hnn).2 n hn).1, ?_⟩
+          rw [← ((nextNames_spec _ _ _ _ _ hnn).2 n hn).2]
+          apply satisfiedName_view
+          apply updRow_view_congr
+          intro x; exact ⟨rfl, rfl⟩)
+      have hd := dispatch_tasks { w with tasks := updRow w.tasks t (completeUpd s ns), pending := w.pending ++ [.postCheck] }
         ns (fun hcw => nextNames_completed sp _ _ _ _ hnn hcw)
-    · intro n hn
-      refine ⟨((nextNames_spec _ _ _ _ _ hnn).2 n hn).1, ?_⟩
-      rw [← ((nextNames_spec _ _ _ _ _ hnn).2 n hn).2]
-      apply satisfiedName_view
-      apply updRow_view_congr
-      intro x; exact ⟨rfl, rfl⟩
+      rw [← hd] at hsh
+      exact hsh
+
+/-- `_continue_workflow` marks completed rows processed: names and states stay -/
+def markProcessed (rows : List TaskRow) : List TaskRow :=
+  rows.map fun r => if isCompleted r.state && !r.processed then { r with processed := true } else r
+
+theorem markProcessed_view (rows : List TaskRow) : view (markProcessed rows) = view rows := by
+  unfold markProcessed view
+  rw [List.map_map]
+  apply List.map_congr_left
+  intro r _
+  simp only [Function.comp]
+  split <;> rfl
+
+theorem markProcessed_names (rows : List TaskRow) : (markProcessed rows).map (·.name) = rows.map (·.name) := by
+  have := congrArg (List.map Prod.fst) (markProcessed_view rows)
+  simp only [view, List.map_map] at this
+  exact this
+
+theorem runTaskNames_spec_of_continue (sp : Spec) (wf : St) (rows : List TaskRow) (via : Bool) (cmds : List Cmd)
+    (h : continueWorkflow sp wf rows via = some cmds) : nextNames sp wf rows via = some (runTaskNames cmds) := by
+  unfold nextNames; rw [h]; rfl
 
 theorem step_shape (sp : Spec) (w : World) (e : Event) : Shape sp w.tasks (step sp w e).tasks := by
   cases e with
@@ -486,11 +530,34 @@ theorem step_shape (sp : Spec) (w : World) (e : Event) : Shape sp w.tasks (step 
       · exact shape_same _ _ _ rfl
       · rename_i ns hnn
         rw [checkAndComplete_tasks, dispatch_tasks _ _ (by intro h; exact absurd (show isCompleted St.RUNNING = true from h) (by decide))]
-        refine ⟨"", fun x => x, ns, by simp [updRow_id], fun _ => rfl, fun _ _ h => h,
-          (nextNames_spec _ _ _ _ _ hnn).1, ?_⟩
-        intro n hn
-        rw [updRow_id]
-        exact (nextNames_spec _ _ _ _ _ hnn).2 n hn
+        exact ⟨w.tasks, ns, rfl, rfl, fun _ h => h, (nextNames_spec _ _ _ _ _ hnn).1, (nextNames_spec _ _ _ _ _ hnn).2⟩
+  | pause => exact shape_same _ _ _ rfl
+  | stop s => exact shape_same _ _ _ rfl
+  | resume =>
+    simp only [step]
+    split
+    · exact shape_same _ _ _ rfl
+    · split
+      · exact shape_same _ _ _ rfl
+      · rename_i cmds hc
+        have hnn := runTaskNames_spec_of_continue _ _ _ _ _ hc
+        have hmid : Shape sp w.tasks (markProcessed w.tasks ++ (runTaskNames cmds).map newRow) := by
+          refine ⟨markProcessed w.tasks, runTaskNames cmds, rfl, markProcessed_names _, ?_, (nextNames_spec _ _ _ _ _ hnn).1, ?_⟩
+          · intro q hq; rw [hasSuccess_view _ _ (markProcessed_view w.tasks)]; exact hq
+          · intro n hn
+            refine ⟨((nextNames_spec _ _ _ _ _ hnn).2 n hn).1, ?_⟩
+            rw [satisfiedName_view sp _ _ (markProcessed_view w.tasks)]
+            exact ((nextNames_spec _ _ _ _ _ hnn).2 n hn).2
+        split
+        · rename_i hemp
+          rw [checkAndComplete_tasks]
+          have : runTaskNames cmds = [] := by
+            have : cmds = [] := by simpa using hemp
+            rw [this]; rfl
+          rw [this] at hmid
+          simpa [markProcessed] using hmid
+        · rw [dispatch_tasks _ _ (fun hcw => nextNames_completed sp _ _ _ _ hnn hcw)]
+          exact hmid
   | execute t ok =>
     simp only [step]
     split <;> exact shape_same _ _ _ rfl
@@ -498,6 +565,7 @@ theorem step_shape (sp : Spec) (w : World) (e : Event) : Shape sp w.tasks (step 
     cases it with
     | runAction t => exact shape_same _ _ _ rfl
     | postStartTask t => simp only [step]; split <;> exact shape_same _ _ _ rfl
+    | postStartExisting t => simp only [step]; split <;> exact shape_same _ _ _ rfl
     | postRunAction t => simp only [step]; split <;> exact shape_same _ _ _ rfl
     | postCheck =>
       simp only [step]; split
@@ -511,16 +579,39 @@ theorem step_shape (sp : Spec) (w : World) (e : Event) : Shape sp w.tasks (step 
         · rename_i r hr
           split
           · rename_i hidle
-            refine ⟨t, (fun x : TaskRow => ({ x with state := St.RUNNING } : TaskRow)), [], by simp,
-              fun _ => rfl, ?_, by simp, by simp⟩
-            intro r' h1 h2
-            unfold findRow at hr
-            simp only at hr
-            rw [hr] at h1
-            have : r' = r := by simpa using h1.symm
-            subst this
-            rw [h2] at hidle; exact absurd hidle (by decide)
+            have := shape_upd sp w.tasks t (fun x : TaskRow => ({ x with state := St.RUNNING } : TaskRow)) []
+              (fun _ => rfl) (by
+                intro r' h1 h2
+                unfold findRow at hr
+                simp only at hr
+                rw [hr] at h1
+                have : r' = r := by simpa using h1.symm
+                subst this
+                rw [h2] at hidle; exact absurd hidle (by decide)) (by simp) (by simp)
+            simpa using this
           · exact shape_same _ _ _ rfl
+    | rpcStartExisting t =>
+      simp only [step]; split
+      · exact shape_same _ _ _ rfl
+      · split
+        · exact shape_same _ _ _ rfl
+        · rename_i r hr
+          split
+          · exact shape_same _ _ _ rfl
+          · rename_i hns
+            split
+            · exact shape_same _ _ _ rfl
+            · have := shape_upd sp w.tasks t
+                (fun x : TaskRow => ({ x with state := St.RUNNING, processed := false } : TaskRow)) []
+                (fun _ => rfl) (by
+                  intro r' h1 h2
+                  unfold findRow at hr
+                  simp only at hr
+                  rw [hr] at h1
+                  have : r' = r := by simpa using h1.symm
+                  subst this
+                  rw [h2] at hns; exact absurd (by decide) hns) (by simp) (by simp)
+              simpa using this
     | rpcResult t ok =>
       simp only [step]; split
       · exact shape_same _ _ _ rfl
@@ -574,37 +665,41 @@ theorem satisfiedName_true (sp : Spec) (rows : List TaskRow) (n : String) (h : s
     exact h
   · simp at h
 
+/-- a row of the kept part has a row of the same name before -/
+theorem mid_old (old mid : List TaskRow) (h : mid.map (·.name) = old.map (·.name)) (r : TaskRow) (hr : r ∈ mid) :
+    ∃ y ∈ old, y.name = r.name := by
+  have : r.name ∈ old.map (·.name) := by rw [← h]; exact List.mem_map.mpr ⟨r, hr, rfl⟩
+  rcases List.mem_map.mp this with ⟨y, hy, hn⟩
+  exact ⟨y, hy, hn⟩
+
 /-- a row created by an event has all its requirements in SUCCESS right then; rows that were there
     keep theirs -/
 theorem shape_reqOrder (sp : Spec) (old new : List TaskRow) (h : Shape sp old new) (hi : ReqOrder sp old) :
     ReqOrder sp new := by
-  rcases h with ⟨t, f, ns, rfl, hname, hsucc, _, hsat⟩
+  rcases h with ⟨mid, ns, rfl, hname, hsucc, _, hsat⟩
   intro r hr q hq
   rcases List.mem_append.mp hr with h1 | h1
   · apply hasSuccess_append
-    apply hasSuccess_updRow old t f hname hsucc
-    rcases mem_updRow old t f r h1 with h2 | ⟨y, hy, rfl⟩
-    · exact hi r h2 q hq
-    · rw [hname] at hq; exact hi y hy q hq
+    rcases mid_old old mid hname r h1 with ⟨y, hy, hn⟩
+    exact hsucc q (hi y hy q (by rw [hn]; exact hq))
   · rcases List.mem_map.mp h1 with ⟨n, hn, rfl⟩
     apply hasSuccess_append
     exact (satisfiedName_true sp _ n (hsat n hn).2).2 q hq
 
 theorem shape_onlyNeeded (sp : Spec) (old new : List TaskRow) (h : Shape sp old new) (hi : OnlyNeeded sp old) :
     OnlyNeeded sp new := by
-  rcases h with ⟨t, f, ns, rfl, hname, _, _, hsat⟩
+  rcases h with ⟨mid, ns, rfl, hname, _, _, hsat⟩
   intro r hr
   rcases List.mem_append.mp hr with h1 | h1
-  · rcases mem_updRow old t f r h1 with h2 | ⟨y, hy, rfl⟩
-    · exact hi r h2
-    · rw [hname]; exact hi y hy
+  · rcases mid_old old mid hname r h1 with ⟨y, hy, hn⟩
+    rw [← hn]; exact hi y hy
   · rcases List.mem_map.mp h1 with ⟨n, hn, rfl⟩
     exact (hsat n hn).1
 
 theorem shape_once (sp : Spec) (old new : List TaskRow) (h : Shape sp old new) (hi : Once old) : Once new := by
-  rcases h with ⟨t, f, ns, rfl, hname, _, hnd, hsat⟩
+  rcases h with ⟨mid, ns, rfl, hname, _, hnd, hsat⟩
   unfold Once
-  rw [List.map_append, updRow_names old t f hname, List.map_map]
+  rw [List.map_append, hname, List.map_map]
   have hm : (ns.map ((fun x => x.name) ∘ newRow)) = ns := by
     induction ns with
     | nil => rfl
@@ -616,22 +711,19 @@ theorem shape_once (sp : Spec) (old new : List TaskRow) (h : Shape sp old new) (
   intro a ha b hb hab
   subst hab
   have := (satisfiedName_true sp _ a (hsat a hb).2).1
-  rw [hasRow_updRow old t f hname] at this
-  have h2 := (hasRow_iff old a).mpr ha
+  have h2 : hasRow mid a = true := by rw [hasRow_iff, hname]; exact ha
   rw [this] at h2; exact absurd h2 (by decide)
 
 /-- a row whose name had no row before the event is one of the appended ones: its requirements are
     all in SUCCESS after the event -/
 theorem shape_new_row (sp : Spec) (old new : List TaskRow) (h : Shape sp old new) (r : TaskRow) (hr : r ∈ new)
     (hno : hasRow old r.name = false) : ∀ q ∈ reqsN sp r.name, hasSuccess new q = true := by
-  rcases h with ⟨t, f, ns, rfl, hname, _, _, hsat⟩
+  rcases h with ⟨mid, ns, rfl, hname, _, _, hsat⟩
   intro q hq
   rcases List.mem_append.mp hr with h1 | h1
   · have : hasRow old r.name = true := by
-      rw [hasRow_iff]
-      rcases mem_updRow old t f r h1 with h2 | ⟨y, hy, rfl⟩
-      · exact List.mem_map.mpr ⟨r, h2, rfl⟩
-      · rw [hname]; exact List.mem_map.mpr ⟨y, hy, rfl⟩
+      rw [hasRow_iff, ← hname]
+      exact List.mem_map.mpr ⟨r, h1, rfl⟩
     rw [this] at hno; exact absurd hno (by decide)
   · rcases List.mem_map.mp h1 with ⟨n, hn, rfl⟩
     apply hasSuccess_append
@@ -640,8 +732,8 @@ theorem shape_new_row (sp : Spec) (old new : List TaskRow) (h : Shape sp old new
 /-- a succeeded task stays succeeded -/
 theorem shape_success_stays (sp : Spec) (old new : List TaskRow) (h : Shape sp old new) (q : String)
     (hq : hasSuccess old q = true) : hasSuccess new q = true := by
-  rcases h with ⟨t, f, ns, rfl, hname, hsucc, _, _⟩
-  exact hasSuccess_append _ _ q (hasSuccess_updRow old t f hname hsucc q hq)
+  rcases h with ⟨mid, ns, rfl, _, hsucc, _, _⟩
+  exact hasSuccess_append _ _ q (hsucc q hq)
 
 theorem run_snoc (sp : Spec) (evs : List Event) (e : Event) : run sp (evs ++ [e]) = step sp (run sp evs) e := by
   unfold run; rw [List.foldl_append]; rfl
